@@ -235,6 +235,17 @@ theorem server_handles (opt : ModeOpt) (evs : List Ev) (hm : (run (init opt) evs
     simp [ha, hi, show s.mode = Mode.server from hm]
 
 /-! non-vacuity: a demotion with an open inbound stream on an outbound connection -/
+/-- … and that last part needs no history at all: in *any* state whose mode is client — also one holding a stream that
+    slipped past the switch, e.g. one whose protocol negotiation had finished but was not yet recorded (the harness's
+    `nego`/`deliver` steps build such states) — no request is answered: the mode is checked before every message -/
+theorem client_answers_no_request (s : St) (hm : s.mode = .client) (id : Nat) : (step s (.request id)).2 ≠ .answered := by
+  simp only [step]
+  split
+  · simp
+  · split
+    · simp
+    · rw [hm]; simp
+
 def exEvs : List Ev := [.reach .pub, .openStream 1 true false, .request 1, .reach .priv, .request 1, .reach .unknown]
 example : (run (init .auto) exEvs).mode = .client := by decide
 example : (run (init .auto) (exEvs.take 3)).mode = .server := by decide
